@@ -10,8 +10,9 @@
      rectangles (so the shared side of two touching rectangles is blocked).  The search carries the bend points
      of the best path found to each state; the result is re-checked by [check_path], hence
      [oracle_sound]: a returned cost is the cost of a real orthogonal obstacle-avoiding path.
-     Optimality of the oracle (Bellman-Ford fixpoint = minimum over grid paths; an optimal path exists on the
-     Hanan grid) is NOT proved - see Properties/C05.v, `C05_grid_oracle_partial`. *)
+     Optimality of the oracle over the grid graph (relaxation fixpoint = minimum over all grid walks) is proved in
+     Avoid/GridOracleOpt.v (`grid_oracle_optimal`); that an optimal path exists on the Hanan grid is NOT proved -
+     see Properties/C05.v. *)
 From Coq Require Import ZArith QArith List Bool Lia Lra Lqa.
 Import ListNotations.
 Local Open Scope Z_scope.
